@@ -2,6 +2,7 @@
 C16 — Registering a name charges the listed price and yields a live name for the term.
 -/
 import Canine.Proofs.Rns
+import Canine.Proofs.RnsRuns
 import Canine.Query.Rns
 import Canine.Generated.PureFns
 namespace Canine.Rns
@@ -218,5 +219,226 @@ theorem C16_name_query_resolves_to_registrant (s s' : State) (h : Int) (c raw n 
   have hp := hplain nm tld hnt
   simp only [Query.run, Query.nameQuery, hnt, hp]
   simp only [Bool.false_eq_true, if_false, hget]
+
+end Canine.Rns
+
+/-! ## C16 over whole executions: the registered term is never shortened
+
+Runs (`run`, `Mono`: heights never go down), positions in a run (`evs = pre ++ (h, op) :: post`),
+the ghost of listing origins and the listing invariant are in `Proofs/RnsRuns.lean`. -/
+namespace Canine.Rns
+open Bank
+
+/-- **No message shortens a live name's term or removes its record** — each of the 13 messages:
+if the name is live when the message is delivered (`h ≤ w.expires`, the boundary included), its
+record is still there afterwards and `expires` is at least what it was.  (A registration of an
+*expired* name replaces the record and dates it from the current height: not covered, and not meant
+to be — the name was not live.) -/
+theorem C16_live_name_expiry_never_decreases (s s' : State) (h : Int) (op : Op) (key : String) (w : NameRec)
+    (hw : AMap.get s.names key = some w) (hlive : h ≤ w.expires) (hstep : step s h op = some s') :
+    ∃ w', AMap.get s'.names key = some w' ∧ w.expires ≤ w'.expires :=
+  step_live_expiry_mono hw hlive hstep
+
+/-- **Along every run the `expires` field of a name never decreases while the name is live, and a
+live name's record is never removed**: at every position of every run, for every name live
+immediately before the event, whatever the event and whoever signed it, whether it succeeds or not. -/
+theorem C16_expiry_never_decreases_while_live_along_runs
+    (s0 : State) (evs pre post : List (Int × Op)) (h : Int) (op : Op)
+    (hsplit : evs = pre ++ (h, op) :: post) (key : String) (w : NameRec)
+    (hw : AMap.get (run s0 pre).names key = some w) (hlive : h ≤ w.expires) :
+    run s0 evs = run (run s0 (pre ++ [(h, op)])) post ∧
+    ∃ w', AMap.get (run s0 (pre ++ [(h, op)])).names key = some w' ∧ w.expires ≤ w'.expires := by
+  refine ⟨by rw [hsplit, ← run_append]; simp, ?_⟩
+  rw [run_snoc]
+  exact stepT_live_expiry_mono hw hlive op
+
+/-- Consequently a registered name survives, with at least its term, any run that ends before the
+term does: if the last event of the run is delivered at a height `≤ w.expires` (heights never go
+down, so every event is), the final state still has a record for the name, expiring no earlier. -/
+theorem C16_live_name_survives_until_expiry_along_runs
+    (s0 : State) (evs : List (Int × Op)) (hmono : Mono evs) (key : String) (w : NameRec)
+    (hw : AMap.get s0.names key = some w)
+    (hlast : ∀ e, evs.getLast? = some e → e.1 ≤ w.expires) :
+    ∃ w', AMap.get (run s0 evs).names key = some w' ∧ w.expires ≤ w'.expires :=
+  run_live_expiry_ge evs s0 key w hw (Int.le_refl _) (hmono.all_le_of_last_le hlast)
+
+/-- **The registered term survives.**  In a run from a state with an idempotent address table and
+the listing invariant (e.g. no listings), let a `register` for `y` years signed by `c` succeed at
+height `h`, and let the run go on (`post`) up to any height within the term `h + y·5484530`.  With
+`a` the account `c` denotes and `key` the name: right after the registration the name is `a`'s and
+expires no earlier than `h + y·5484530` (`OwnedFor`), and **at the end of the run it still is** —
+registered, owned by the account `a`, expiring no earlier than `h + y·5484530` — **unless** at some
+position of `post`, up to which it was, `a` itself gave the name away (`GaveAway`): a successful
+transfer or bid acceptance of that name signed by a spelling of `a`, or somebody's successful
+purchase through a stored listing that `a` created.  No message of anybody else, no `init`, no
+registration attempt, takes the name, deletes it or shortens the term. -/
+theorem C16_registered_term_survives_along_runs
+    (s0 : State) (g0 : Ghost) (evs pre post : List (Int × Op)) (h : Int) (c raw n dta : String) (y : Int)
+    (p : Bool) (s1 : State)
+    (hsplit : evs = pre ++ (h, .register c raw n dta y p) :: post) (hmono : Mono evs)
+    (hcan : CanonIdem s0) (hinv : ListingInv s0 g0)
+    (hreg : step (run s0 pre) h (.register c raw n dta y p) = some s1)
+    (hterm : ∀ e, post.getLast? = some e → e.1 ≤ h + y * yearBlocks) :
+    ∃ a key, acct s0 c = some a ∧ keyOf n = some key ∧
+      OwnedFor s1 key a (h + y * yearBlocks) ∧
+      (OwnedFor (run s0 evs) key a (h + y * yearBlocks) ∨
+       ∃ mid e rest, post = mid ++ e :: rest ∧
+         OwnedFor (run s1 mid) key a (h + y * yearBlocks) ∧
+         GaveAway (run s1 mid) (ghostRun s0 g0 (pre ++ (h, .register c raw n dta y p) :: mid)) a key e.1 e.2) := by
+  obtain ⟨cc, nm, tld, w', hcc, hnt, hw', hv, hex⟩ := C16_live_for_the_term _ s1 h c raw n dta y p hreg
+  rw [acct_run] at hcc
+  have hs1 : run s0 (pre ++ [(h, .register c raw n dta y p)]) = s1 := by
+    rw [run_snoc]; simp [stepT, hreg]
+  have hcan1 : CanonIdem s1 := by rw [← hs1]; exact canonIdem_run hcan _
+  have hinv1 : ListingInv s1 (ghostRun s0 g0 (pre ++ [(h, .register c raw n dta y p)])) := by
+    have := listingInv_run hinv (pre ++ [(h, .register c raw n dta y p)])
+    rwa [hs1] at this
+  have hacct1 : ∀ x, acct s1 x = acct s0 x := by intro x; rw [← hs1]; exact acct_run _ _ _
+  have hown1 : OwnedFor s1 (nameKey nm tld) cc (h + y * yearBlocks) :=
+    ⟨w', hw', by rw [hacct1, hv]; exact hcan _ _ hcc, hex⟩
+  have hpost : Mono post := by
+    rw [hsplit] at hmono; exact hmono.right.tail
+  have hfin : run s0 evs = run s1 post := by
+    rw [hsplit, ← hs1, ← run_append]; simp
+  refine ⟨cc, nameKey nm tld, hcc, keyOf_of hnt rfl, hown1, ?_⟩
+  rcases owned_run post s1 _ hcan1 hinv1 _ _ _ hown1 (hpost.all_le_of_last_le hterm) with hkeep | ⟨mid, e, rest, hsp, hpre, hg⟩
+  · left; rw [hfin]; exact hkeep
+  · right
+    refine ⟨mid, e, rest, hsp, hpre, ?_⟩
+    have hgr : ghostRun s0 g0 (pre ++ (h, .register c raw n dta y p) :: mid) =
+        ghostRun s1 (ghostRun s0 g0 (pre ++ [(h, .register c raw n dta y p)])) mid := by
+      have : pre ++ (h, Op.register c raw n dta y p) :: mid = (pre ++ [(h, .register c raw n dta y p)]) ++ mid := by simp
+      rw [this, ghostRun_append, hs1]
+    rw [hgr]; exact hg
+
+/-- The same with the proviso as a hypothesis on the messages of `post` themselves (`MayGiveAway`,
+read off each message): if none of them is a transfer or bid acceptance of that name signed by a
+spelling of `a`, or a purchase of that name, then at the end of the run the name is still
+registered, still `a`'s, and expires no earlier than `h + y·5484530`. -/
+theorem C16_registered_term_survives_along_runs_unless_given_away
+    (s0 : State) (g0 : Ghost) (evs pre post : List (Int × Op)) (h : Int) (c raw n dta : String) (y : Int)
+    (p : Bool) (s1 : State)
+    (hsplit : evs = pre ++ (h, .register c raw n dta y p) :: post) (hmono : Mono evs)
+    (hcan : CanonIdem s0) (hinv : ListingInv s0 g0)
+    (hreg : step (run s0 pre) h (.register c raw n dta y p) = some s1)
+    (hterm : ∀ e, post.getLast? = some e → e.1 ≤ h + y * yearBlocks)
+    (hkeep : ∀ a key, acct s0 c = some a → keyOf n = some key → ∀ e ∈ post, ¬ MayGiveAway s0 a key e.2) :
+    ∃ a key w, acct s0 c = some a ∧ keyOf n = some key ∧
+      AMap.get (run s0 evs).names key = some w ∧ acct s0 w.value = some a ∧
+      h + y * yearBlocks ≤ w.expires := by
+  obtain ⟨a, key, ha, hkey, -, hfin | ⟨mid, e, rest, hsp, -, hg⟩⟩ :=
+    C16_registered_term_survives_along_runs s0 g0 evs pre post h c raw n dta y p s1 hsplit hmono hcan hinv hreg hterm
+  · obtain ⟨w, hw, hwa, hT⟩ := hfin
+    exact ⟨a, key, w, ha, hkey, hw, by rw [acct_run] at hwa; exact hwa, hT⟩
+  · exfalso
+    apply hkeep a key ha hkey e (by rw [hsp]; simp)
+    apply hg.may
+    intro x
+    have hs1 : run s0 (pre ++ [(h, .register c raw n dta y p)]) = s1 := by
+      rw [run_snoc]; simp [stepT, hreg]
+    rw [acct_run, ← hs1, acct_run]
+
+end Canine.Rns
+
+/-! ### Non-vacuity on a concrete run
+
+(`ValidateBasic` of a `register` runs the name through `String.all`, which the kernel does not
+evaluate; its value is established by `simp` — `vb_foobar` — and the handlers are then evaluated
+by `decide`, as in the handler-level example above.) -/
+namespace Canine.Rns
+open Bank
+
+def termState : State :=
+  { names := [], forsale := [], bids := [], inits := [], primary := [],
+    bank := [(("carol", "ujkl"), 100000000), (("bob", "ujkl"), 100000000)],
+    blocked := ["rnsmod"], moduleAcc := "rnsmod", polAcc := "pol",
+    canon := [("carol", "carol"), ("CAROL", "carol"), ("bob", "bob")] }
+
+/-- carol (signing as "CAROL") registers foobar.jkl for 2 years at height 200; bob tries `init` on
+it, tries to register it, tries to transfer it, and — at the very last height of the term — tries to
+update it: all fail; in between carol renews for one year. -/
+def termRun : List (Int × Op) :=
+  [(200, .register "CAROL" "foobar.jkl" "foobar.jkl" "{}" 2 false),
+   (300, .init "bob" "foobar"),
+   (300, .register "bob" "foobar.jkl" "foobar.jkl" "mine" 1 true),
+   (400, .register "carol" "foobar.jkl" "foobar.jkl" "{}" 1 true),
+   (500, .transfer "bob" "foobar.jkl" "foobar.jkl" "bob"),
+   (200 + 2 * yearBlocks, .update "bob" "foobar.jkl" "foobar.jkl" "mine")]
+
+theorem vb_foobar (c d : String) (y : Int) (p : Bool) :
+    validateBasic (.register c "foobar.jkl" "foobar.jkl" d y p) = true := by
+  have : nameAndTLD "foobar.jkl" = some ("foobar", "jkl") := by decide
+  simp [validateBasic, this, isValidName]
+
+/-- the state after carol's registration, and after her renewal -/
+def termS1 : State := (handle termState 200 "carol" (.register "CAROL" "foobar.jkl" "foobar.jkl" "{}" 2 false)).getD termState
+def termS2 : State := (handle termS1 400 "carol" (.register "carol" "foobar.jkl" "foobar.jkl" "{}" 1 true)).getD termS1
+
+theorem termRun_reg : step termState 200 (.register "CAROL" "foobar.jkl" "foobar.jkl" "{}" 2 false) = some termS1 := by
+  rw [step_eq_handle (vb_foobar _ _ _ _) rfl (show acct termState "CAROL" = some "carol" by decide)]; decide
+theorem termRun_init_fails : step termS1 300 (.init "bob" "foobar") = none := by
+  cases hs : step termS1 300 (.init "bob" "foobar") with
+  | none => rfl
+  | some s' =>
+    have h1 := (C16_init_never_takes_a_live_name _ _ _ _ _ hs).1
+    have h2 : isLive termS1 (nameKey "foobar" "jkl") 300 = true := by decide
+    rw [h2] at h1; cases h1
+theorem termRun_bob_reg_fails : step termS1 300 (.register "bob" "foobar.jkl" "foobar.jkl" "mine" 1 true) = none := by
+  rw [step_eq_handle (vb_foobar _ _ _ _) rfl (show acct termS1 "bob" = some "bob" by decide)]; decide
+theorem termRun_renew : step termS1 400 (.register "carol" "foobar.jkl" "foobar.jkl" "{}" 1 true) = some termS2 := by
+  rw [step_eq_handle (vb_foobar _ _ _ _) rfl (show acct termS1 "carol" = some "carol" by decide)]; decide
+theorem termRun_transfer_fails : step termS2 500 (.transfer "bob" "foobar.jkl" "foobar.jkl" "bob") = none := by decide
+/-- the boundary: the last height of the 2-year term is still inside it -/
+theorem termRun_update_fails : step termS2 (200 + 2 * yearBlocks) (.update "bob" "foobar.jkl" "foobar.jkl" "mine") = none := by decide
+
+/-- every one of bob's messages fails; the run ends in the state after carol's renewal -/
+theorem termRun_final : run termState termRun = termS2 := by
+  simp [termRun, run, stepT, termRun_reg, termRun_init_fails, termRun_bob_reg_fails, termRun_renew,
+    termRun_transfer_fails, termRun_update_fails]
+
+example : Mono termRun := by decide
+theorem termState_canonIdem : CanonIdem termState := by
+  intro x y h
+  simp only [acct, termState, AMap.get] at h ⊢
+  repeat' split at h
+  all_goals first | (simp at h; subst h; decide) | (simp at h)
+
+/-- the theorem instantiated on this run (the registration is its first event): all its hypotheses
+are met … -/
+example : ∃ a key w, acct termState "CAROL" = some a ∧ keyOf "foobar.jkl" = some key ∧
+    AMap.get (run termState termRun).names key = some w ∧ acct termState w.value = some a ∧
+    200 + 2 * yearBlocks ≤ w.expires := by
+  refine C16_registered_term_survives_along_runs_unless_given_away termState [] termRun [] termRun.tail 200
+    "CAROL" "foobar.jkl" "foobar.jkl" "{}" 2 false termS1 rfl (by decide) termState_canonIdem
+    (listingInv_of_no_listings _ _ rfl) termRun_reg ?_ ?_
+  · intro e he
+    have : e = (200 + 2 * yearBlocks, Op.update "bob" "foobar.jkl" "foobar.jkl" "mine") := by
+      simpa [termRun] using he.symm
+    subst this; decide
+  · intro a key ha hkey e he
+    have ha' : a = "carol" := by
+      have : acct termState "CAROL" = some "carol" := by decide
+      rw [this] at ha; exact (Option.some.inj ha).symm
+    have hk' : key = "foobar.jkl" := by
+      have : keyOf "foobar.jkl" = some "foobar.jkl" := by decide
+      rw [this] at hkey; exact (Option.some.inj hkey).symm
+    subst ha' hk'
+    simp only [termRun, List.tail_cons, List.mem_cons, List.not_mem_nil, or_false] at he
+    rcases he with rfl | rfl | rfl | rfl | rfl
+    · exact id
+    · exact id
+    · exact id
+    · intro hg; exact absurd hg.1 (by decide)
+    · exact id
+/-- … and by evaluation: at the end carol's account owns the name, which expires three years after
+height 200 (the renewal added exactly a year to the unexpired term) -/
+example : (AMap.get (run termState termRun).names "foobar.jkl").map (fun w => (w.value, w.expires))
+    = some ("carol", 200 + 3 * yearBlocks) := by rw [termRun_final]; decide
+/-- one block after the term of the (unrenewed) name anybody may register it anew — allowed, the
+name is not live: the bound on the heights of `post` cannot be dropped -/
+example : ((handle termS1 (201 + 2 * yearBlocks) "bob"
+      (.register "bob" "foobar.jkl" "foobar.jkl" "mine" 1 true)).bind
+    (fun s => (AMap.get s.names "foobar.jkl").map (fun w => (w.value, w.expires))))
+    = some ("bob", 201 + 3 * yearBlocks) := by decide
 
 end Canine.Rns
